@@ -101,7 +101,7 @@ func writeEvidence(spec *Spec, tier string, seed int64, results []*UnitResult, c
 	cov["distinct_nontrivial"] = paths - aborted
 	cov["rule"] = "one evaluation = one feasible path class of the harness through the real SSA (a distinct vector of branch/scheduler/concretisation decisions); every path explored is distinct; non-trivial = not cut by an Assume"
 	cov["exhaustive"] = status == 0
-	cov["explanation"] = "bounded symbolic execution of the real code from go/ssa; each path class is decided for all values of the symbolic inputs by the SMT solver (unsat = holds)"
+	cov["explanation"] = "bounded symbolic execution of the real code from go/ssa: on each path class the symbolic inputs (integers, instants, durations) are decided for all their values by the SMT solver (unsat = holds); discrete choices (catalogue picks, operation sequences, crash points, scheduler decisions) are enumerated exhaustively within the stated bounds - see queries.total for how much of this run was the solver's"
 	cov["paths"] = paths
 	cov["ssa_steps"] = steps
 	cov["queries"] = map[string]interface{}{"total": queries, "sat": sat, "unsat": unsat, "unknown": unknown, "by_backend": by}
@@ -116,6 +116,7 @@ func writeEvidence(spec *Spec, tier string, seed int64, results []*UnitResult, c
 	cov["outside_bounds"] = spec.Outside
 	cov["witness_labels"] = ls
 	cov["canaries"] = canaries
+	cov["solver_cross_checks"] = crossChecksOut
 	cov["known_findings_confirmed"] = knownConfirmed
 	cov["stubs"] = stubs
 	cov["units"] = units
